@@ -16,7 +16,7 @@ from .. import env
 from ..harness import Acc, Discrepancy
 
 ID = "C17"
-RULE = ("(1) breadth-first over all reachable states for keys {a,A,b,B,layers,Layers} and values {1,'x',[1],{'k':1}} with and "
+RULE = ("(1) breadth-first over all reachable states for keys {a,A,b,B,layers,Layers} and values {1,'x',[1,[2],{'j':[3]}],{'k':[1,[2]]}} with and "
         "without default factory: in every distinct state every operation (item get/set/del, in, has_key, get, pop, "
         "setdefault, update by mapping/pairs/kwargs, construction, copy, deepcopy, pickle, keys/items/len/==) is applied to "
         "the real dict and to the reference model (OrderedDict keyed by lower-cased keys + default rule) and result-or-"
@@ -29,13 +29,13 @@ ASSUMPTIONS = [
     "construction uses the documented signature: first positional argument is the default factory (or None)",
 ]
 TIERS = {
-    "quick": {"seq_len": 2, "machine_runs": 400, "machine_steps": 30, "budget_s": 100, "exhaustive": True},
-    "thorough": {"seq_len": 3, "machine_runs": 20000, "machine_steps": 50, "budget_s": 1500, "exhaustive": True},
+    "quick": {"seq_len": 2, "loaded": 320, "machine_runs": 400, "machine_steps": 30, "budget_s": 100, "exhaustive": True},
+    "thorough": {"seq_len": 3, "loaded": 8000, "machine_runs": 20000, "machine_steps": 50, "budget_s": 1500, "exhaustive": True},
 }
-PARTS = ["bfs", "sequences", "machine"]
+PARTS = ["bfs", "sequences", "machine", "loaded"]
 
 KEYS = ["a", "A", "b", "B", "layers", "Layers"]
-VALUES = [1, "x", [1], {"k": 1}]
+VALUES = [1, "x", [1, [2], {"j": [3]}], {"k": [1, [2]]}]   # opaque to the dict operations; nested so that copies can be told apart in depth
 PROBE_KEYS = ["Classes", "styles", "SYMBOLS", "labels", "outputformats", "features", "scaletokens", "composites", "joins", "layer", "style"]
 OBJECT_LIST_KEYS = {"layers", "classes", "styles", "symbols", "labels", "outputformats", "features", "scaletokens",
                     "composites", "joins"}
@@ -80,6 +80,25 @@ def norm(x):
     if isinstance(x, (list, tuple)):
         return ("list", [norm(v) for v in x])
     return (type(x).__name__, x)
+
+
+def containers(x, out=None, keep=None):
+    """ids of every mutable container reachable from x (dicts read without triggering the default rule)."""
+    if out is None:
+        out = set()
+    if isinstance(x, dict):
+        out.add(id(x))
+        for v in dict.values(x):
+            containers(v, out)
+    elif isinstance(x, (list, set, bytearray)):
+        out.add(id(x))
+        if not isinstance(x, bytearray):
+            for v in x:
+                containers(v, out)
+    elif isinstance(x, tuple):
+        for v in x:
+            containers(v, out)
+    return out
 
 
 def same_state(real, model: Model):
@@ -278,6 +297,10 @@ def apply_real(real, op, model_before: Model):
             after = norm(OrderedDict(OrderedDict.items(real)))
             if before != after:
                 return ("ok", "ORIGINAL CHANGED THROUGH ITS COPY")
+            if name.startswith("deepcopy"):
+                shared = containers(real) & containers(copy.deepcopy(real))
+                if shared:
+                    return ("ok", "DEEPCOPY SHARES %d MUTABLE CONTAINER(S) WITH THE ORIGINAL" % len(shared))
             # the copy behaves like the original under the next operation (case folding, defaults)
             if "zz" not in c or c["zz"] != 1:
                 return ("ok", "copy lost case-insensitive lookup")
@@ -537,11 +560,98 @@ def machine(acc: Acc, tier, shard, nshards):
         break  # the machine stops at the first failure; bfs/sequences enumerate the rest
 
 
+def check_loaded(text):
+    """The dictionaries loads returns (nested, with object lists, POINTS lists of lists, key-value blocks):
+    copy / deepcopy / pickle give an equal dictionary of the same class and behaviour at every level,
+    deepcopy and pickle share no mutable container with the original, a mutated deep copy leaves it alone."""
+    from .. import refdict
+
+    W = env.Workers.get()
+    C = CIOD()
+    d = W.loads(text)
+    roots = d if isinstance(d, list) else [d]
+    snap = refdict.snapshot(d)
+    for how in ("deepcopy", "pickle", "copy", "copy_method"):
+        c = copy.deepcopy(d) if how == "deepcopy" else pickle.loads(pickle.dumps(d)) if how == "pickle" else \
+            copy.copy(d) if how == "copy" or isinstance(d, list) else d.copy()
+        if refdict.snapshot(c) != snap:
+            return [Discrepancy(f"loaded:{how}:not_equal", f"{how} of a loaded dictionary is not equal to it", {"text": text})]
+        if c != d or d != c:
+            return [Discrepancy(f"loaded:{how}:neq", f"{how} of a loaded dictionary does not compare equal (==) to it", {"text": text})]
+        deep = how in ("deepcopy", "pickle")
+        # same classes and default rule at every level (shallow copies: top level)
+        pairs = [(d, c)]
+        while pairs:
+            a, b = pairs.pop()
+            if type(a) is not type(b):
+                return [Discrepancy(f"loaded:{how}:class", f"{how}: {type(a).__name__} became {type(b).__name__}", {"text": text})]
+            if isinstance(a, C):
+                if (a.default_factory is None) != (b.default_factory is None):
+                    return [Discrepancy(f"loaded:{how}:factory", f"{how}: default factory {'lost' if a.default_factory else 'appeared'}", {"text": text})]
+                if list(OrderedDict.keys(a)) != list(OrderedDict.keys(b)):
+                    return [Discrepancy(f"loaded:{how}:order", f"{how}: key order changed", {"text": text})]
+                if deep or a is d:
+                    k0 = next(iter(OrderedDict.keys(b)), None)
+                    if k0 is not None and isinstance(k0, str) and (k0.upper() not in b or b.get(k0.upper()) is not OrderedDict.__getitem__(b, k0)):
+                        return [Discrepancy(f"loaded:{how}:casefold", f"{how}: the copy lost case-insensitive lookup", {"text": text})]
+                if deep:
+                    pairs.extend(zip(OrderedDict.values(a), OrderedDict.values(b)))
+            elif isinstance(a, (list, tuple)) and deep:
+                pairs.extend(zip(a, b))
+        if deep:
+            shared = containers(d) & containers(c)
+            if shared:
+                return [Discrepancy(f"loaded:{how}:shared", f"{how} of a loaded dictionary shares {len(shared)} mutable container(s) with it", {"text": text})]
+            _mutate_all(c)
+            if refdict.snapshot(d) != snap:
+                return [Discrepancy(f"loaded:{how}:aliased", f"mutating the {how} changed the original", {"text": text})]
+    return []
+
+
+def _mutate_all(x):
+    if isinstance(x, dict):
+        for v in list(dict.values(x)):
+            _mutate_all(v)
+        dict.__setitem__(x, "mfv_mut", 1)
+    elif isinstance(x, list):
+        for v in x:
+            _mutate_all(v)
+        x.append("mfv_mut")
+    elif isinstance(x, tuple):
+        for v in x:
+            _mutate_all(v)
+
+
+def loaded(acc: Acc, tier, shard, nshards):
+    from .. import model, render
+    from ..harness import hyp_search
+
+    n = max(1, TIERS[tier]["loaded"] // nshards)
+    prof = model.Profile(max_depth=3, max_items=6, includes=False)
+
+    def body(data):
+        ch = model.Ch(data.draw)
+        g = model.Gen(ch, prof)
+        doc = model.any_document(g)
+        text = render.render(doc).text
+        st_ = model.stats_of(doc)
+        npairs = sum(1 for r in doc for _, o in model.walk(r) for it in o["items"] if it[0] == "pairs")
+        acc.case(text, st_["objects"] >= 3 or npairs > 0)
+        if npairs:
+            acc.cls("loaded:with_points_or_pattern")
+        acc.cls("loaded:documents")
+        return check_loaded(text)
+
+    hyp_search(acc, ID, "loaded", shard, n, body, tier)
+
+
 def _j(x):
     return list(x) if isinstance(x, tuple) else x
 
 
 def replay(case):
+    if "text" in case:
+        return check_loaded(case["text"])
     if "ops" in case:
         m = Model(case.get("factory", False), [(k, v) for k, v in case.get("state", [])])
         real = make_real(m)
